@@ -21,7 +21,7 @@ def queries(ctx):
         qs.append(q)
     # faults while GATHERING data: every passwd/group/tty/cwd/hostname/time lookup and every procfs open/read may fail
     import dataclasses as _dc, importlib as _il, runner as _r
-    for modname, pat in (("C12", r"ds_(username|eusername|group|egroup|tty_uid|tty_username|cwd|hostname|login|datetime|timestamp)$"), ("C15", r"tree_d2")):
+    for modname, pat in (("C12", r"ds_(username|eusername|group|egroup|tty_uid|tty_username|cwd|hostname|login|datetime|timestamp|rpname|cgroup)$"), ("C15", r"tree_d2")):
         sub = dict(ctx); sub["kf"] = _r.finding_keys(modname)
         for q in _il.import_module("props." + modname).queries(sub):
             import re as _re
